@@ -25,6 +25,7 @@ FINDINGS = [
          example="truth argparse add_argument('--alpha', type=float, required=True) -> gold default 0.0"),
 ]
 FIXED = [
+    'fixed: property=C12 88502dc class truth documenting a return value, function target missing or empty: the created method had return_type as a parameter (one interface object shared by the emitters, mutated by the class emitter)',
     'fixed: property=C12 7d1086f truth documenting only some of its parameters: class/function parsers returned the documented ones first, argparse the declared order - equivalent targets were rewritten in another order and a class truth was itself rewritten (thorough tier)',
     "fixed: property=C12 161087c with any top-level function before class C, 'C.method' was not found: sync appended another copy of the method to the file on every run (non-idempotent, code outside the target changed), and --truth function died with AssertionError",
     "fixed: property=C12 4144ee5 a missing class file was created with the class named after the truth instead of --class-name (and appended to again on run 2 and 3); a missing function file raised TypeError after other files had been rewritten",
